@@ -110,7 +110,7 @@ REGISTRY = {
     ),
     "C13": dict(
         jobs=lambda tier, seed: __import__("vf.props.relations", fromlist=["x"]).configs_c13(tier),
-        job_of_config=_job_of("vf.props.relations", "c13"),
+        job_of_config=lambda cfg: ("vf.props.relations", "c13_sympy" if cfg.get("sympy_format") else "c13"),
         technique="pairs of real block_diagonalize runs over shared symbolic inputs related by: scaling perturbation k by a SYMBOLIC factor c_k, merging two parameters, permuting parameters, adding a vanishing parameter, lambda->lambda^p; "
         "z3 decides the transformed-output relation for H_tilde, U, U_inv at every order",
         bounds={
@@ -134,7 +134,7 @@ REGISTRY = {
     ),
     "C10": dict(
         jobs=lambda tier, seed: __import__("vf.props.history", fromlist=["x"]).configs_c10(tier, seed),
-        job_of_config=lambda cfg: ("vf.props.history", "c10_product" if cfg.get("product") else "c10"),
+        job_of_config=lambda cfg: ("vf.props.history", "c10_product" if cfg.get("product") else ("c10_formats" if cfg.get("formats") else "c10")),
         technique="request schedules (element and slice requests over H_tilde, U, U_inv, optionally interleaved between two computations built from the same input objects) are the enumerated paths; "
         "values stay symbolic and after every request z3 decides value != fresh-computation value (syntactically identical z3 terms discharged structurally, verdicts cached); "
         "identity snapshots of all input arrays and of every value already handed out are re-checked after each schedule",
@@ -161,7 +161,7 @@ REGISTRY = {
     ),
     "C14": dict(
         jobs=lambda tier, seed: __import__("vf.props.formats", fromlist=["x"]).configs(tier),
-        job_of_config=lambda cfg: ("vf.props.formats", "c14_operator" if cfg.get("operator") else "c14"),
+        job_of_config=lambda cfg: ("vf.props.formats", "c14_operator" if cfg.get("operator") else ("c14_sparse_dense" if cfg.get("sparse_dense") else "c14")),
         technique="the same symbolic Hamiltonian (sympy values, translated node-by-node to z3 terms) is passed to the real block_diagonalize as list, tuple-key dict, monomial-key dict, sympy matrix with symbols "
         "(incl. analytic dependence vs exact Taylor coefficients), nested block lists, BlockSeries, with subspace_indices / identity / rational real-orthogonal / complex-unitary / biorthogonal eigenvector matrices; "
         "z3 decides output(format) != output(reference format) for H_tilde, U, U_inv at every order; operator_to_BlockSeries blocks vs own L^dagger A R",
@@ -169,7 +169,7 @@ REGISTRY = {
             "quick": "layouts 1|2, 2|1 (N=3), both modes, 1 parameter to order 3 and 2 parameters + mixed term to order 2, symbolic spectrum to order 2, analytic dependences geom/exp/square to order 2-3, full-diag and mask variants",
             "thorough": "adds 1|1|1, 2|2, 1|1|2 and sin(lambda)",
         },
-        assumptions=COMMON_ASSUMPTIONS + ["dense-vs-scipy.sparse value equivalence is numeric only and outside (sparse cannot hold symbolic payloads)",
+        assumptions=COMMON_ASSUMPTIONS + ["dense-vs-scipy.sparse value equivalence cannot be symbolic (sparse cannot hold symbolic payloads): it is decided by exhaustive concrete enumeration of integer problems (spectra {0,1,2}^N, all block assignments, fully_diagonalize none/all/mask)",
                                           "sympy's own arithmetic/diff/subs is trusted where the library calls it; the sympy->z3 translation is validated at a seeded rational point on every run"],
         timeout_s={"quick": 400, "thorough": 1500},
     ),
@@ -241,6 +241,16 @@ REGISTRY = {
         bounds={"quick": "integers in boxes within [-3, 5] (see the pre-conditions in vf/ch/indexing.py), shapes (2,2)+1, (2,)+2, ()+1; 150 s per contract", "thorough": "same boxes, 900 s per contract"},
         assumptions=["CrossHair realises integers at the numpy boundary, so each path is one concrete index expression; `Confirmed over all paths` = the whole box was covered", "element values are tagged integers; absent elements follow a fixed rule (sum of indices = 2 mod 3)"],
         timeout_s={"quick": 400, "thorough": 1200},
+    ),
+    "C17": dict(
+        jobs=lambda tier, seed: __import__("vf.props.projector", fromlist=["x"]).configs(tier),
+        job_of_config=_job_of("vf.props.projector", "c17"),
+        technique="the real ComplementProjector is built from SYMBOLIC complex R, L (object arrays of z3-backed scalars; L=R, independent L, and L^dagger R = 1 by parametrisation) and driven through its primitive methods and "
+        "SciPy's LinearOperator algebra (matvec/matmat/rmatvec/rmatmat, left multiplication, .T/.H/conjugate chains, P A P composites and their adjoint/transpose/right-multiplication, sums, scalar multiples); "
+        "z3 decides result != dense (1 - R L^dagger) expression entrywise; idempotence under L^dagger R = 1; shape/dtype concretely",
+        bounds={"quick": "n<=3, k<=2, real and complex, chains of length <=2", "thorough": "n<=4, k<=2, chains of length <=3 (n<=3)"},
+        assumptions=COMMON_ASSUMPTIONS[:1] + COMMON_ASSUMPTIONS[2:] + ["SciPy's LinearOperator composition classes are part of the code under test (they run on object arrays)", "sparse operands inside composites are numeric only and outside"],
+        timeout_s={"quick": 300, "thorough": 900},
     ),
 }
 
